@@ -7,7 +7,7 @@ T='''You work ONLY inside the git worktree {wt} (a checkout of the Go library Te
 Below is a semantic property of this library that holds on the current tree. Your task: write TWO independent code changes to the LIBRARY (not the tests), each a CLEAN-UP COMMIT IN ONE OF THE STYLES BELOW THAT GOES SUBTLY WRONG: almost all of the diff is a faithful, behaviour-preserving rewrite, but one small slip inside it breaks the property for some input, schedule or history. Styles (use a different one for each change, and pick styles that fit the code the property is anchored in):
  - inverting conditions / swapping if-else branches / De Morgan / early returns, where one rewritten condition is not the exact negation (`<` vs `<=`, `&&` vs `||`, a dropped sub-condition, a nil test that flips);
  - introducing accessors, small shared helpers or predicate functions (`isClosed()`, `hasItems(x)`, `withLock(mu, fn)`, `wakeUp()`), where one call site ends up with the wrong receiver/argument, outside the lock, or the helper's condition differs slightly from one of the places it replaces;
- - INLINING helpers or lock wrappers (writing `doSafe(func(){…})` out as Lock/Unlock), where one copy loses the closed-check, the unlock on an early exit, or the order of two steps;
+ - INLINING helpers or lock wrappers (writing `doSafe(func(){{…}})` out as Lock/Unlock), where one copy loses the closed-check, the unlock on an early exit, or the order of two steps;
  - regrouping struct fields into nested structs, renaming fields, bundling parameters into a struct or reordering the parameters of unexported functions, where one use ends up reading the wrong field / passing two same-typed arguments in the wrong order / copying a struct that must be shared (mutex, counters) or sharing one that must be copied;
  - adding "defensive" guards, clamps and fast paths that are supposed never to fire but do fire for a legal input (zero, empty, exactly-equal bounds, nil-but-typed values), or debug/metrics code that has a side effect on the real state;
  - loop restructuring (`range` <-> index/receive loops, recursion <-> iteration, flags instead of labeled breaks), where the rewritten loop stops one step early/late, skips the last element, re-evaluates something that changes, or no longer breaks out of the outer loop;
